@@ -12,7 +12,7 @@ Not decided: behaviour for items whose < is not a strict weak order.
 import ast
 import re
 
-from mmsa import au, cfg as cfgmod, classfx, dataflow
+from mmsa import pathcond, au, cfg as cfgmod, classfx, dataflow
 from mmsa.core import Undecided, norm, walk_no_nested
 
 EXPLANATION = (
@@ -141,6 +141,9 @@ def check_push(repo, rep):
           # resolve aliases of the queue inside the guard
           e, _ = rd.expand(n, n.expr)
           e = ast.parse(re.sub(r'(%s\.%s)\.setdefault\((\w+), (\[\]|list\(\))\)' % (re.escape(selfn), re.escape(resultfield)), r'\1[\2]', norm(e)), mode='eval').body
+          e, neg_ = au.strip_not(e)
+          if neg_:
+            nxt = 'false' if nxt == 'true' else 'true'
           r = _rel_guard(e, {qcanon}, sizeexprs)
           if r is not None and r[0] == 'size-only':
             # capacity >= 1 is assumed: `size <= 0` is never true, `size >= 1` always; anything else is left open
@@ -462,20 +465,26 @@ def check_lt(repo, rep):
     n += 1
     a, b = f.params[0], f.params[1]
     g = cfgmod.CFG(f.node)
+    rd_lt = dataflow.Reaching(g)
     for path in g.enumerate_paths(g.entry, lambda x: x in (g.exit, g.raise_exit), cfgmod.no_exc, back_limit=0):
       rep.analysed['paths'] += 1
+      pf_lt = pathcond.PathFacts(path, rd_lt, keep=(a, b))
+      if not pf_lt.feasible:
+        continue
       ret = [x for x, lab in path if x.kind == 'return']
       guards = []
       for i, (x, lab) in enumerate(path):
         if x.kind == 'test':
-          e, neg = au.strip_not(x.expr)
+          e, neg = au.strip_not(rd_lt.expand(x, x.expr, keep=(a, b), pathenv=pf_lt.env)[0])
           taken = path[i + 1][1] == 'true'
           guards.append((e, taken != neg))
       if not ret or ret[0].ast.value is None:
         rep.violation('R4/order', f.qualname, '__lt__ path without a comparison result',
                       '%s.__lt__ has a path that returns nothing / raises: designs are not totally ordered by score' % q, f.loc())
         continue
-      rv = ret[0].ast.value
+      rv = rd_lt.expand(ret[0], ret[0].ast.value, keep=(a, b), pathenv=pf_lt.env)[0]
+      if isinstance(rv, ast.Call) and isinstance(rv.func, ast.Name) and rv.func.id == 'bool' and len(rv.args) == 1:
+        rv = rv.args[0]
       kind = _cmp_kind(rv, a, b)
       if kind == 'lt' and not guards:
         rep.ok('R4/order', '%s.__lt__ is score < score' % q, loc=f.loc(rv))
@@ -497,6 +506,9 @@ def check_lt(repo, rep):
               implied = True
       if implied:
         rep.ok('R4/order', '%s.__lt__ path returns %s consistently with score < score' % (q, norm(rv)), loc=f.loc(rv))
+      elif kind is None and not (au.const(rv)[0] and isinstance(au.const(rv)[1], bool)):
+        # neither the canonical comparison nor a recognised different relation between the two scores
+        rep.undecided('R4/order', '%s.__lt__' % q, 'the returned value `%s` is not a recognised comparison of the two scores' % norm(rv)[:80], f.loc(ret[0].ast))
       else:
         gtxt = ' and '.join(('' if t else 'not ') + norm(e) for e, t in guards) or 'always'
         rep.violation('R4/order', f.qualname, 'return %s [%s]' % (norm(rv), gtxt),
